@@ -33,6 +33,10 @@ class BroadcastError(RuntimeFailure):
     ValueError at run time (a fact about the analysed code, not a limit of the evaluator)."""
 
 
+#: documented domains of the state atoms the rules use (degrees); np.clip consults them
+DOMAINS = {'pitch': (-90, 90), 'lat': (-90, 90), 'roll': (-360, 360), 'heading': (-360, 360),
+           'lon': (-360, 360)}
+
 #: repository functions that were used through a summary instead of being inlined; the rules
 #: that establish each summary are run by props.run whenever it was used
 SUMMARY_USED = set()
@@ -899,7 +903,7 @@ class SymEval:
                 return ((Opaque('n'),) if base.sample else ()) + base.shape
             if a == 'values':
                 return base
-            if a in ('transpose', 'copy', 'dot', 'reshape', 'sum'):
+            if a in ('transpose', 'copy', 'dot', 'reshape', 'sum', 'to_numpy', 'astype'):
                 return Bound(base, a)
         if isinstance(base, (Rat, int, float)) and not isinstance(base, bool):
             if a == 'ndim':
@@ -1564,6 +1568,14 @@ class SymEval:
                 return self.transpose(obj)
             if name == 'copy':
                 return obj.copy()
+            if name in ('to_numpy', 'astype') and set(kwargs) <= {'dtype', 'copy'}:
+                # the values as a (new) float array; integer target types would truncate
+                dt_ = kwargs.get('dtype', args[0] if args else None)
+                if dt_ is None or dt_ is float or (isinstance(dt_, Opaque) and
+                                                   'float' in repr(dt_.parts)) or \
+                        (isinstance(dt_, str) and 'float' in dt_):
+                    return obj.copy()
+                raise Unsupported('%s to dtype %r' % (name, dt_))
             if name == 'dot':
                 return self.matmul(obj, args[0])
             if name == 'sum':
@@ -1624,6 +1636,43 @@ class SymEval:
             return v
         if q == 'numpy.square':
             return self.emap(lambda x: A.mul(x, x), args[0])
+        if q in ('numpy.clip',) and len(args) == 3 and not kwargs:
+            # clip(x, lo, hi) with constant bounds: the identity when [lo, hi] covers the
+            # documented domain of x (a guard), otherwise a different function of x inside the
+            # domain (an uninterpreted `clip` value: the rules will see the difference)
+            lo_, hi_ = (self.rat(b_) if isinstance(b_, (Rat, int, float)) else None
+                        for b_ in args[1:])
+
+            def num(v_):
+                """numeric value of a constant or of +- a named float constant of the source"""
+                if v_ is None:
+                    return None
+                if A.is_const(v_):
+                    return float(A.const_of(v_))
+                ats = A.atoms_of(v_)
+                if len(ats) == 1 and next(iter(ats)) in getattr(A, 'numeric', {}):
+                    a_ = next(iter(ats))
+                    for sg in (1, -1):
+                        if A.eq(v_, A.mul(A.const(sg), A.sym(a_))):
+                            return sg * A.numeric[a_]
+                return None
+            lo_c, hi_c = num(lo_), num(hi_)
+            if lo_c is not None and hi_c is not None:
+
+                def clip1(x):
+                    x = self.rat(x)
+                    ats = A.atoms_of(x)
+                    if len(ats) == 1 and A.key(x) == A.key(A.sym(next(iter(ats)))):
+                        dom = DOMAINS.get(next(iter(ats)))
+                        if dom is not None:
+                            if lo_c <= dom[0] and hi_c >= dom[1]:
+                                return x
+                            return A.func('clip', x, lo_, hi_)
+                    raise Unsupported('np.clip of a quantity without a documented domain')
+                if isinstance(args[0], SArray):
+                    return self.emap(clip1, args[0])
+                if isinstance(args[0], (Rat, int, float)):
+                    return clip1(args[0])
         if q == 'numpy.resize' and len(args) == 2 and not kwargs and \
                 isinstance(args[0], (Rat, int, float)) and not isinstance(args[0], bool):
             shp = args[1] if isinstance(args[1], (tuple, list)) else (args[1],)
